@@ -227,10 +227,10 @@ func ParsePPSNALUnit(data []byte, spsMap map[uint32]*SPS) (*PPS, error) {
 		pps.NumTileRowsMinus1 = r.ReadExpGolomb()
 		pps.UniformSpacingFlag = r.ReadFlag()
 		if !pps.UniformSpacingFlag {
-			for i := uint(0); i < pps.NumTileColumnsMinus1; i++ {
+			for i := uint(0); i < pps.NumTileColumnsMinus1 && r.AccError() == nil; i++ {
 				pps.ColumnWidthMinus1 = append(pps.ColumnWidthMinus1, r.ReadExpGolomb())
 			}
-			for i := uint(0); i < pps.NumTileRowsMinus1; i++ {
+			for i := uint(0); i < pps.NumTileRowsMinus1 && r.AccError() == nil; i++ {
 				pps.RowHeightMinus1 = append(pps.RowHeightMinus1, r.ReadExpGolomb())
 			}
 		}
@@ -333,7 +333,7 @@ func parseRangeExtension(r *bits.EBSPReader, transformSkipEnabled bool) (*RangeE
 	if ext.ChromaQpOffsetListEnabledFlag {
 		ext.DiffCuChromaQpOffsetDepth = r.ReadExpGolomb()
 		ext.ChromaQpOffsetListLenMinus1 = r.ReadExpGolomb()
-		for i := uint(0); i <= ext.ChromaQpOffsetListLenMinus1; i++ {
+		for i := uint(0); i <= ext.ChromaQpOffsetListLenMinus1 && r.AccError() == nil; i++ {
 			// values shall be in the range of −12 to +12, inclusive
 			ext.CbQpOffsetList = append(ext.CbQpOffsetList, int8(r.ReadSignedGolomb()))
 			ext.CrQpOffsetList = append(ext.CrQpOffsetList, int8(r.ReadSignedGolomb()))
@@ -357,8 +357,8 @@ func parseMultilayerExtension(r *bits.EBSPReader) (*MultilayerExtension, error) 
 		ext.ScalingListRefLayerId = uint8(r.Read(6))
 	}
 	ext.NumRefLocOffsets = r.ReadExpGolomb()
-	ext.RefLocOffsets = make(map[uint8]RefLocOffset, int(ext.NumRefLocOffsets))
-	for i := uint(0); i < ext.NumRefLocOffsets; i++ {
+	ext.RefLocOffsets = make(map[uint8]RefLocOffset)
+	for i := uint(0); i < ext.NumRefLocOffsets && r.AccError() == nil; i++ {
 		ext.RefLocOffsetLayerIds = append(ext.RefLocOffsetLayerIds, uint8(r.Read(6)))
 
 		off := RefLocOffset{}
@@ -525,13 +525,13 @@ func parseSccExtension(r *bits.EBSPReader) (*SccExtension, error) {
 			}
 			ext.PalettePredictorInitializer = make([][]uint, numComps)
 			// Fill luma
-			for i := uint(0); i < ext.NumPalettePredictorInitializers; i++ {
+			for i := uint(0); i < ext.NumPalettePredictorInitializers && r.AccError() == nil; i++ {
 				ext.PalettePredictorInitializer[0] =
 					append(ext.PalettePredictorInitializer[0], r.Read(int(ext.LumaBitDepthEntryMinus8+8)))
 			}
 			// Fill chroma if any
 			for comp := 1; comp < numComps; comp++ {
-				for i := uint(0); i < ext.NumPalettePredictorInitializers; i++ {
+				for i := uint(0); i < ext.NumPalettePredictorInitializers && r.AccError() == nil; i++ {
 					ext.PalettePredictorInitializer[comp] =
 						append(ext.PalettePredictorInitializer[comp], r.Read(int(ext.ChromaBitDepthEntryMinus8+8)))
 				}
